@@ -152,11 +152,14 @@ inductive Act where
 inductive Tok where
   | add | sub | mul | quo | quoAssign | rem | and | or | xor | andNot | shl | shr | not
   | byQuoSwitch     -- the variable `operator` of quoConst, decided by `QuoSwitch`
+  | eql | neq | lss | leq | gtr | geq      -- comparison tokens (typecheck.go `constToken`, handed to constant.Compare)
   | other
   deriving DecidableEq, Repr, Inhabited
 
 inductive Entry where
-  | binaryOp | unaryOp | shift | other
+  | binaryOp | unaryOp | shift
+  | compare      -- `constant.Compare(x, constToken[n.action], y)` on the constValue of both operands (compareConst)
+  | other
   deriving DecidableEq, Repr, Inhabited
 
 /-- the `case isX(t):` arms of a folding function that work on typed (non go/constant) operands -/
@@ -191,6 +194,62 @@ structure QuoSwitch where
   elseTok : Tok
   deriving DecidableEq, Repr, Inhabited
 
+/-- which form of typecheck.go `zeroConst` the source has -/
+inductive ZeroForm where
+  /-- `n.typ.untyped && constant.Sign(n.rval.Interface().(constant.Value)) == 0` (before 03fb34b): only untyped
+      divisors, and a Go panic on anything that is not a go/constant number -/
+  | untypedOnly
+  /-- not valid or not a number: false; a go/constant value: `Sign == 0`; otherwise `!CanSet() && IsZero()`
+      (since 03fb34b / 4bcc5b4) -/
+  | anyConst
+  | other
+  deriving DecidableEq, Repr, Inhabited
+
+/-- the checks and decisions that the repairs of the third round put around the folding functions
+    (interp/cfg.go post-order cases, interp/typecheck.go, interp/type.go); each is read from the source text, the
+    model branches on it, so a reverted repair changes what the driver computes -/
+structure CheckFacts where
+  /-- cfg.go, binaryExpr case: `if err = check.constExpr(n); err != nil { break }` stands before `constOp[n.action](n)` (5e2cd1c) -/
+  constExprBin : Bool
+  /-- the same in the unaryExpr case -/
+  constExprUn : Bool
+  /-- cfg.go, binaryExpr case: `if err = check.constOverflow(n); …` stands after the fold (b425d98) -/
+  overflowBin : Bool
+  /-- the same in the unaryExpr case -/
+  overflowUn : Bool
+  /-- typecheck.go constOverflow: `constant.BitLen(c) > N`; `none` when the function is not of that shape -/
+  intBitsMax : Option Nat
+  /-- typecheck.go shift: `c0.rval.IsValid() && c1.rval.IsValid() && vUint(c1.rval) > N` is an error (b425d98) -/
+  shiftCountMax : Option Nat
+  /-- typecheck.go constExpr: the count handed to constant.Shift is `min(vUint(c1.rval), N)` -/
+  shiftClamp : Nat
+  /-- typecheck.go constExpr: `case tok == token.QUO && isInt(t): x = constant.BinaryOp(x, token.QUO_ASSIGN, y)` is there -/
+  quoIntExact : Bool
+  /-- typecheck.go binaryExpr returns before the operand conversions for a quotient of two constants (removed by 4bcc5b4) -/
+  quoEarlyReturn : Bool
+  zeroForm : ZeroForm
+  /-- cfg.go, binaryExpr case: `if n.typ != nil && isUntypedConst(c0) && (isUntypedConst(c1) || isShiftNode(n) && c1.rval.IsValid()) { n.typ = c0.typ }` (7973ebe) -/
+  untypedStays : Bool
+  /-- typecheck.go shift accepts a constant count of floating-point type with a non-negative integral value (04c8232) -/
+  floatShiftCount : Bool
+  /-- typecheck.go conversion: a typed constant operand converted to a numeric type goes through check.representable (7402c20) -/
+  convTypedChecked : Bool
+  /-- typecheck.go representable reads the operand with `constValue(n.rval)` (reflect values included) instead of
+      asserting a go/constant value (7402c20) -/
+  reprConstValue : Bool
+  /-- typecheck.go convertUntyped refuses bool ↔ non-bool (`isBoolean(ntyp) != isBoolean(ttyp)`, 385eb77) -/
+  boolConvChecked : Bool
+  /-- cfg.go landExpr and lorExpr cases fold two constant operands (d04f498) -/
+  foldLogical : Bool
+  /-- cfg.go pre-order: the type of a comparison / logical parent is not copied onto its operands
+      (`if !isBoolAction(n.anc)`, d04f498) -/
+  cmpNotPushed : Bool
+  /-- cfg.go, builtin len: `isInConstOrTypeDecl(n) || isConstString(n.child[1])` (3d1d9b9) -/
+  lenConstString : Bool
+  /-- type.go nodeType2, basicLit: an Int constant whose literal starts with `'` is typed untyped rune (ebd86cd) -/
+  runeLitKeepsType : Bool
+  deriving DecidableEq, Repr
+
 structure EvalFacts where
   constOp : List (Act × String)
   folds : List FoldFn
@@ -198,7 +257,15 @@ structure EvalFacts where
   /-- cfg.go `fixUntyped` retypes the frame slot only of nodes that are not constants
       (`if n.findex >= 0 && !n.rval.IsValid()`, since 08f21a9); before, a parenthesised literal made it index `sc.types` -/
   fixSkipsConst : Bool
+  /-- typecheck.go `constToken`: the go/token operator of every constant action (constExpr, compareConst) -/
+  constToken : List (Act × Tok)
+  chk : CheckFacts
   deriving DecidableEq, Repr
+
+def EvalFacts.tokOf (f : EvalFacts) (a : Act) : Tok :=
+  match f.constToken.find? (fun p => p.1 == a) with
+  | some p => p.2
+  | none => .other       -- a Go map answers the zero token (token.ILLEGAL) for a missing key
 
 def EvalFacts.foldOf (f : EvalFacts) (a : Act) : Option FoldFn :=
   match f.constOp.find? (fun p => p.1 == a) with
